@@ -894,11 +894,105 @@ inline J plan_c17(uint64_t verif_seed, uint64_t index, int tier) {
     return plan;
 }
 
+// ------------------------------------------------------------------------------------------- C02
+inline J plan_c02(uint64_t verif_seed, uint64_t index, int tier) {
+    uint64_t rs = run_seed(verif_seed, index);
+    Rng root(rs);
+    Rng rm = root.fork(S_MODEL), rsch = root.fork(S_SCHED), rf = root.fork(S_FAULT), re = root.fork(S_ENV), ro = root.fork(S_OPT);
+    J plan = J::obj();
+    plan.set("prop", "C02");
+    plan.set("seed", J::hex(rs));
+    plan.set("index", (int64_t)index);
+    plan.set("heap_seed", J::hex(re.next()));
+    plan.set("clock", random_clock(re));
+    gen::Cfg cfg;
+    cfg.mode = canon::OAS;
+    cfg.max_cells = (int)ro.range(1, 7);
+    cfg.max_elems = (int)ro.range(1, tier ? 16 : 10);
+    cfg.max_vertices = (int)ro.range(4, 40);
+    cfg.big_polygons = ro.chance(0.02);
+    // C02 quantifies over simple paths only.  (Observed while building this check and outside the
+    // property: write_oas keeps pointers to the property values of the temporary polygons of a
+    // non-simple path after freeing them - DESIGN.md section 6.)
+    cfg.nonsimple_paths = false;
+    cfg.robust_paths = ro.chance(0.4);
+    cfg.long_strings = ro.chance(0.2);
+    cfg.simple_polys_only = true;
+    cfg.dangling = ro.chance(0.35);
+    model::MLib m = gen::library(rm, cfg);
+    J models = J::arr();
+    models.push(model::to_json(m));
+    plan.set("models", models);
+    J ops = J::arr();
+    ops.push(knobs_op(re, 2, 6));
+    // the configuration space is swept systematically across run indices and randomised on top
+    uint64_t combo = (index * 2654435761ULL + (verif_seed % 5120)) % 5120;
+    int64_t flags = (int64_t)(combo % 256), level = (int64_t)((combo / 256) % 10);
+    double tol = (combo / 2560) ? 0.01 * (m.precision / m.unit) * (double)ro.range(1, 200) : 0.0;
+    J s = op("save_oas");
+    s.set("model", 0);
+    s.set("file", "/sim/o0.oas");
+    s.set("flags", flags);
+    s.set("level", level);
+    s.set("tol", tol);
+    ops.push(s);
+    auto add_validate = [&](const std::string& f) {
+        J v = op("validate_check");
+        v.set("file", f);
+        ops.push(v);
+    };
+    add_validate("/sim/o0.oas");
+    J l = op("load_check_oas");
+    l.set("file", "/sim/o0.oas");
+    J e = J::obj();
+    e.set("model", 0);
+    l.set("expect", e);
+    l.set("circle_tol", tol);
+    l.set("keep", "L0");
+    l.set("level_class", level == 0 ? 0 : 1);
+    if (rsch.chance(0.2)) l.set("tol", 1e-3 * (m.precision / m.unit));
+    ops.push(l);
+    int cycles = (int)rsch.range(0, tier ? 4 : 2);
+    for (int i = 1; i <= cycles; i++) {
+        if (rsch.chance(0.2)) ops.push(knobs_op(re, 2, 6));
+        J rsv = op("resave_oas");
+        rsv.set("from", "L" + std::to_string(i - 1));
+        std::string f = "/sim/o" + std::to_string(i) + ".oas";
+        rsv.set("file", f);
+        rsv.set("flags", (int64_t)(rsch.chance(0.5) ? flags : rsch.below(256)));
+        rsv.set("level", (int64_t)(rsch.chance(0.5) ? level : rsch.below(10)));
+        rsv.set("tol", 0.0);  // circle detection is a one-way representational change, cycle 1 only
+        ops.push(rsv);
+        if (rsch.chance(0.5)) add_validate(f);
+        J lc = op("load_check_oas");
+        lc.set("file", f);
+        J ec = J::obj();
+        ec.set("canon", "L0");
+        lc.set("expect", ec);
+        lc.set("keep", "L" + std::to_string(i));
+        ops.push(lc);
+    }
+    // corruption of the stored, signed file: the signature must notice
+    int nflip = (int)rf.range(0, 3);
+    for (int i = 0; i < nflip; i++) {
+        J f = op("flip");
+        f.set("file", "/sim/o0.oas");
+        f.set("at", (int64_t)rf.below(1u << 30));
+        f.set("keep_tail", 5);
+        f.set("mask", (int64_t)(rf.chance(0.6) ? (1 << rf.below(8)) : rf.range(1, 255)));
+        ops.push(f);
+        add_validate("/sim/o0.oas");
+    }
+    plan.set("ops", ops);
+    return plan;
+}
+
 inline J make_plan(const std::string& prop, uint64_t verif_seed, uint64_t index, int tier) {
     if (prop == "C18") return plan_c18(verif_seed, index, tier);
     if (prop == "C01") return plan_c01(verif_seed, index, tier);
     if (prop == "C03") return plan_c03(verif_seed, index, tier);
     if (prop == "C17") return plan_c17(verif_seed, index, tier);
+    if (prop == "C02") return plan_c02(verif_seed, index, tier);
     return J();
 }
 
